@@ -509,11 +509,13 @@ def run_adaptive(params, known):
     samples = []
     nacks = 6 if params.get('thorough') else 4
     # peer MRUs above and *below* the controller's internal floor of 10240 octets
-    for (mru, init, target) in ((20000, 5000, 1), (12000, 20000, 1), (64000, 11000, 2), (4096, 4096, 1), (10239, 3000, 1)):
+    for (mru, init, target, first) in ((20000, 5000, 1, None), (12000, 20000, 1, None), (64000, 11000, 2, None), (4096, 4096, 1, None), (10239, 3000, 1, None),
+                                       # the first bundle has no octets at all / a single one (its only acknowledgement covers nothing / one octet)
+                                       (20000, 5000, 1, ''), (20000, 5000, 1, 'ab')):
         for (delays, late_second) in itertools.product(itertools.product((1, 10 ** 7), repeat=nacks), (False, True, 'after-the-first-has-finished')):
             count += 1
             size = 24000
-            prm = dict(scripts={'A': [('send', 'ab' * size), ('send', 'cd' * size)], 'B': []},
+            prm = dict(scripts={'A': [('send', 'ab' * size if first is None else first), ('send', 'cd' * size)], 'B': []},
                        seg_mru={'A': mru, 'B': mru}, tx_init={'A': init, 'B': init},
                        modulate={'A': target, 'B': None}, max_ticks=0)
             w = TcpclWorld(prm)
@@ -561,7 +563,7 @@ def run_adaptive(params, known):
                 samples.append(dict(mru=mru, init=init, delays=list(delays), late_second=late_second, steps=steps))
             for viol in found[:1]:
                 v = viol.as_dict()
-                v['case'] = dict(mru=mru, init=init, target=target, delays=list(delays), late_second=late_second)
+                v['case'] = dict(mru=mru, init=init, target=target, delays=list(delays), late_second=late_second, first_bundle_octets=(size if first is None else len(first) // 2))
                 violations.append(v)
         if violations:
             break
